@@ -183,7 +183,40 @@ def body(chk: check.Check):
     rt.setup(chk.seed)
     quick = chk.tier == 'quick'
     salt = chk.seed % 7919
-    recs = []
+    slots = set()
+    ngen = [0]
+    keep = dict(valid=None, invalid=None)     # one record of each kind for the negative controls
+
+    def replay_batch(recs):
+        """replay one generated family at once and forget it (the records of all families together make every fork slow)"""
+        ngen[0] += len(recs)
+        for r_ in recs:
+            if keep['valid'] is None and r_['valid']:
+                keep['valid'] = r_
+            if keep['invalid'] is None and not r_['valid']:
+                keep['invalid'] = r_
+        results = par.pmap(audit.run_entry_points, recs, chunk=20)
+        for rec, (st, val) in zip(recs, results):
+            desc = audit.describe(rec['ops'], rec['root'])
+            key = (desc, rec['panel'], rec['estimation'])
+            chk.replayed += 1
+            if st != 'ok':
+                chk.violation('audit:machinery', dict(formula=desc, error=val), match=dict(kind='exception'))
+                continue
+            chk.count(key, len(val))
+            for n in rec['ops']:
+                for slot, k in enumerate(n['kids']):
+                    if k in audit.FAULT_LEAVES:
+                        slots.add((n['op'], slot, k))
+            chk.sample(dict(formula=desc, panel=rec['panel'], estimation=rec['estimation'], valid=rec['valid'], broken=rec['broken'], observed=val))
+            for ep, (cls, msg) in val.items():
+                bad = judge(rec['valid'], 'tree', cls)
+                if bad:
+                    chk.violation(f'audit:{ep}:{bad[:60]}', dict(formula=desc, panel=rec['panel'], entry=ep, valid=rec['valid'], broken=rec['broken'],
+                                                                 observed=cls, message=msg),
+                                  match=dict(kind='tree', entry=ep, observed=cls, valid=rec['valid'], valid_rowwise=rec['valid_rowwise'], valid_no5b=rec['valid_no5b'], panel=rec['panel'], broken=','.join(sorted(rec['broken'])),
+                                             root=rec['ops'][-1]['op']))
+
     for panel in (False, True):
         for est in (True, False):
             plans = [(1, (3,) if quick else (1,), False), (2, (24, 36) if quick else (16, 24), False)]
@@ -196,39 +229,18 @@ def body(chk: check.Check):
                               workers='auto', timeout=2400)
                 chk.add_tlc(f'Audit: panel={panel} estimation={est} ops<={max_ops} thin={thin}' + (' chains' if chain else ''), res)
                 emitted = res.emitted
+                del res
                 cap = 400 if quick else 2000
                 if chain and len(emitted) > cap:      # the residue classes of the chains are lumpy: a regular sample
                     emitted = emitted[:: -(-len(emitted) // cap)]
                 for n_, r_ in enumerate(emitted):
                     r_['light'] = quick and n_ % 4 != 0
-                recs += emitted
+                replay_batch(emitted)
+                del emitted
     chk.rule = ('formula DAGs generated by TLC from Audit.tla (fault leaves: unknown column, parameter named like a column, draw, '
                 'integration variable; binders; every operator class; both data kinds; both entry points) with the expected verdict; '
                 'distinct = distinct (formula, data kind, entry point); plus the scenarios of AuditScenarios.tla')
-    chk.extra['formulas_generated'] = len(recs)
-    results = par.pmap(audit.run_entry_points, recs, chunk=20)
-    slots = set()
-    for rec, (st, val) in zip(recs, results):
-        desc = audit.describe(rec['ops'], rec['root'])
-        key = (desc, rec['panel'], rec['estimation'])
-        chk.replayed += 1
-        if st != 'ok':
-            chk.violation('audit:machinery', dict(formula=desc, error=val), match=dict(kind='exception'))
-            continue
-        chk.count(key, len(val))
-        nl = len(audit.LEAVES)
-        for n in rec['ops']:
-            for slot, k in enumerate(n['kids']):
-                if k in audit.FAULT_LEAVES:
-                    slots.add((n['op'], slot, k))
-        chk.sample(dict(formula=desc, panel=rec['panel'], estimation=rec['estimation'], valid=rec['valid'], broken=rec['broken'], observed=val))
-        for ep, (cls, msg) in val.items():
-            bad = judge(rec['valid'], 'tree', cls)
-            if bad:
-                chk.violation(f'audit:{ep}:{bad[:60]}', dict(formula=desc, panel=rec['panel'], entry=ep, valid=rec['valid'], broken=rec['broken'],
-                                                             observed=cls, message=msg),
-                              match=dict(kind='tree', entry=ep, observed=cls, valid=rec['valid'], valid_rowwise=rec['valid_rowwise'], valid_no5b=rec['valid_no5b'], panel=rec['panel'], broken=','.join(sorted(rec['broken'])),
-                                         root=rec['ops'][-1]['op']))
+    chk.extra['formulas_generated'] = ngen[0]
     chk.extra['operator_slot_fault_triples_covered'] = len(slots)
     # scenarios
     cfg, mod = scen_cfg(['nests', 'data', 'flags', 'choice', 'missing'])
@@ -253,8 +265,8 @@ def body(chk: check.Check):
                     facts['miss'] = ','.join(sorted(sc['miss']))
                 chk.violation(f'scenario:{sc["fam"]}:{ep}:{bad[:50]}', dict(scenario=sc, entry=ep, observed=cls), match=facts)
     # negative controls: flipped expectations must be reported
-    flip_v = next(r for r in recs if r['valid'])
-    flip_i = next(r for r in recs if not r['valid'])
+    flip_v = keep['valid']
+    flip_i = keep['invalid']
     for r, name in ((flip_v, 'a valid formula expected to be refused'), (flip_i, 'an invalid formula expected to be accepted')):
         st, val = rt.forked(audit.run_entry_points, r)
         detected = st == 'ok' and any(judge(not r['valid'], 'tree', cls) for cls, _ in val.values())
